@@ -354,8 +354,14 @@ class FactChecker:
                     self.fail('alias', dn.site, f'`{m}` is bound to an element list of `{name}` but its region differs from the elements region of `{name}`')
 
 
+XOPS = ('cbrt', 'roundint', 'nearbyint', 'fabs', 'copysign', 'fdim', 'fmod', 'remainder', 'hypot', 'fmin', 'fmax', 'mod', 'powop', 'pow',
+        'nan', 'inf', 'round_exact', 'fst', 'snd', 'logb', 'round_at')
+XPREDS = ('isnan', 'isinf', 'isfinite', 'signbit', 'isnormal')
+
 PROFILES = [
     dict(),
+    dict(extra_ops=XOPS, extra_prob=0.3, preds=XPREDS, pred_prob=0.3, w_if=4, w_const=2),
+    dict(extra_ops=XOPS, extra_prob=0.2, preds=XPREDS, pred_prob=0.35, w_if=6, w_if1=3, w_with=4, return_in_arm_prob=0.2),
     dict(w_alias=3, w_index_assign=3, w_listdef=3, const_list_prob=0.3, nested_lists=True, w_for=4, w_tuple=2),
     dict(w_listdef=5, list_redefine_prob=0.6, const_list_prob=0.5, w_if=4, w_if1=4, w_for=3, w_while=2, slices=True),
     dict(w_if=5, w_if1=3, w_while=2, w_for=4, w_const=3, w_copy=2, max_depth=4),
